@@ -96,6 +96,15 @@ Definition count_spec (bmax : nat) (n : nat) (k : Z) : Z :=
 
 Definition check_count (bmax : nat) (n : nat) (k r : Z) : bool := r =? count_spec bmax n k.
 
+(* a whole row Q(n, 0..n(n-1)/2) at once (one table of the recurrence instead of one per entry) *)
+Definition check_row (bmax : nat) (n : nat) (rs : list Z) : bool :=
+  let s := Z.to_nat (tri (Z.of_nat n)) in
+  Nat.eqb (length rs) (S s) &&
+  (if (n <=? Nat.min bmax 7)%nat
+   then forallb (fun k => nth k rs 0 =? brute n k) (seq 0 (S s))
+   else let row := nth (n - 1)%nat (cross_rows n) [] in
+        forallb (fun k => nth k rs 0 =? nth k row 0) (seq 0 (S s))).
+
 Definition check_ncg (nodes : list nat) (edges : list edge) (ak : list nat) (i : nat) (k r : Z) : bool :=
   let vs := induced_vs nodes ak i in
   let es := induced_es vs edges in
@@ -107,7 +116,7 @@ Definition check_clique (tau : nat) (phi : pe) (Hs : list pe) (d : Z) (impl : pe
 Definition check_cycle (n : nat) (u phi : pe) (d : Z) (impl : pe) : bool :=
   peq impl (pmul (pc d) (cycle_spec n u phi)).
 
-(* c16_check: (0 n k r bmax) | (1 n k r bmax) | (2 nodes edges ak i k r) | (3 tau phi Hs d impl) | (4 n u phi d impl)
+(* c16_check: (5 n bmax (r_0 ... r_s)) a whole row of Q | (0 n k r bmax) | (1 n k r bmax) | (2 nodes edges ak i k r) | (3 tau phi Hs d impl) | (4 n u phi d impl)
    answers 1 = the property holds on this observation, 0 = it does not, 2 = outside the property's domain *)
 Definition c16_check (t : tree) : tree :=
   let a := t_nth 1 t in let b := t_nth 2 t in
@@ -120,6 +129,7 @@ Definition c16_check (t : tree) : tree :=
       let k := t_z (t_nth 5 t) in
       if k <? 0 then I 2
       else of_bool (check_ncg (t_nats a) (t_pairs b) (t_nats (t_nth 3 t)) (t_nat (t_nth 4 t)) k (t_z (t_nth 6 t)))
+  | 5 => if t_z a <? 1 then I 2 else of_bool (check_row (t_nat b) (t_nat a) (t_zs (t_nth 3 t)))
   | 3 =>
       let tau := t_nat a in let Hs := map dec_poly (t_list (t_nth 3 t)) in
       if (t_z a <? 2) || negb (Nat.eqb (S (length Hs)) tau) then I 2
